@@ -88,6 +88,18 @@ Definition log_unreachable (l : list stg) : M unit :=
 Definition lift_res {A} (r : result A) : M A :=
   match r with Val a => ret a | Exc e => raise e end.
 
+(* WorkflowStateMachine.process_event as one atomic state update; returns the joins to log *)
+Definition wf_workflow_event_M (st : status) : M (list stg) :=
+  fun c => match wf_process_workflow_event (c_graph c) (c_ws c) st with
+           | Exc e => (c, Exc e)
+           | Val (new, unreachable) => (set_ws c (ws_set_status (c_ws c) new), Val unreachable)
+           end.
+Definition wf_task_event_M (t : string) (route : nat) (st : status) : M (list stg) :=
+  fun c => match wf_process_task_event (c_graph c) (c_ws c) t route st with
+           | Exc e => (c, Exc e)
+           | Val (new, unreachable) => (set_ws c (ws_set_status (c_ws c) new), Val unreachable)
+           end.
+
 (* the body of request_workflow_status once the workflow state exists *)
 Definition request_status_core (st : status) : M unit :=
   w0 <- getws ;;
@@ -101,10 +113,7 @@ Definition request_status_core (st : status) : M unit :=
         ns <- lift_res (task_process_event w r (EvWorkflow st)) ;;
         match ns with Some s => set_rec_status i (Some s) | None => ret tt end
     end) ;;;
-  c <- get ;;
-  res <- lift_res (wf_process_workflow_event (c_graph c) (c_ws c) st) ;;
-  let '(new, unreachable) := res in
-  modws (fun w => ws_set_status w new) ;;;
+  unreachable <- wf_workflow_event_M st ;;
   log_unreachable unreachable ;;;
   w1 <- getws ;;
   let updated := wstatus w1 in
@@ -149,7 +158,7 @@ Definition ensure_ws : M unit :=
   c <- get ;;
   if c_init c then ret tt
   else
-    put (set_init (set_ws c empty_ws) true) ;;;
+    modify (fun c => set_init c true) ;;;
     let init_ctx := c_parent c in
     ri <- render_input (wf_input (c_spec c)) (c_inputs c) init_ctx [] ;;
     let '(rendered_inputs, input_errors) := ri in
@@ -633,10 +642,7 @@ Fixpoint update_task_state_fuel (fuel : nat) (t : string) (route : nat) (evt : e
                 (* workflow state machine *)
                 r <- get_rec idx ;;
                 st <- (match r_status r with Some s => ret s | None => raise (exn_key "status") end) ;;
-                c <- get ;;
-                res <- lift_res (wf_process_task_event (c_graph c) (c_ws c) t route st) ;;
-                let '(new, unreachable) := res in
-                modws (fun w => ws_set_status w new) ;;;
+                unreachable <- wf_task_event_M t route st ;;
                 log_unreachable unreachable ;;;
                 (* engine commands *)
                 forM_ queue (fun '(n, rt) =>
@@ -657,21 +663,23 @@ Definition update_task_state (t : string) (route : nat) (evt : event) : M unit :
 
 (* --------------------------------------------------------- render_workflow_output *)
 
+Fixpoint merge_term_contexts (l : list (nat * trec)) (acc : dict) : M dict :=
+  match l with
+  | [] => ret acc
+  | (_, r) :: l' =>
+      match nat_remove_first 0 (r_in r) with
+      | None => raise (mkexn "ValueError" "list.remove(x): x not in list")
+      | Some idxs => d <- get_task_context idxs ;; merge_term_contexts l' (merge_dicts acc d)
+      end
+  end.
+
 Definition get_workflow_terminal_context : M dict :=
   w <- getws ;;
   match get_terminal_tasks w with
   | [] => ret []
   | (_, first) :: others =>
       c0 <- get_task_context (r_in first) ;;
-      (fix go (l : list (nat * trec)) (acc : dict) : M dict :=
-         match l with
-         | [] => ret acc
-         | (_, r) :: l' =>
-             match nat_remove_first 0 (r_in r) with
-             | None => raise (mkexn "ValueError" "list.remove(x): x not in list")
-             | Some idxs => d <- get_task_context idxs ;; go l' (merge_dicts acc d)
-             end
-         end) others c0
+      merge_term_contexts others c0
   end.
 
 Definition render_workflow_output : M unit :=
